@@ -4,28 +4,32 @@ from vlib import core, e1
 BS = [('0', '0'), ('SKIP', 'F_SKIP'), ('DIR', 'F_DIR'), ('SYNC', 'F_SYNC'), ('SYNC+USL', 'F_SYNC|F_USL'),
       ('SYNC+SKIP', 'F_SYNC|F_SKIP'), ('SYNC+DIR', 'F_SYNC|F_DIR')]
 CB = [('0', '0'), ('SKIP', 'F_SKIP'), ('DIR', 'F_DIR'), ('OBO', 'F_OBO'), ('OBO+SKIP', 'F_OBO|F_SKIP'), ('OBO+DIR', 'F_OBO|F_DIR')]
-CALLER = {0: 'ext', 1: 'w0', 2: 'wlast'}
+CALLER = {0: 'ext', 1: 'w0', 2: 'wlast', 3: 'otherpool'}
 NOTRUN = {0: 'allrun', 1: 't0-notstarted', 2: 'tlast-detached', 3: 't0-was-the-caller', 4: 'all-in-stop-hook', 5: 'caller-queue-full', 6: 'caller-detached-itself', 7: 'tlast-busy-detached-from-outside'}
 
 
 def variants():
     out = []
     for W in (1, 2, 3, 4, 16):
-        for caller in (0, 1, 2):
+        for caller in (0, 1, 2, 3):
             if caller == 2 and W == 1:
+                continue
+            if caller == 3 and W > 3:
                 continue
             for api, fl in [(0, f) for f in BS] + [(1, f) for f in CB]:
                 if api == 1 and caller == 0:
                     continue            # cbsend needs an originating pool thread
                 sync = api == 0 and 'SYNC' in fl[0]
-                if sync and caller != 0 and not ('SKIP' in fl[0] or 'DIR' in fl[0]):
+                if sync and caller in (1, 2) and not ('SKIP' in fl[0] or 'DIR' in fl[0]):
                     continue            # documented: a pool thread cannot wait synchronously for itself
                 if W == 16 and fl[0] not in ('0', 'SYNC', 'SKIP', 'OBO', 'SYNC+DIR'):
                     continue
                 for notrun in (0, 1, 2, 3, 4, 5, 6, 7):
+                    if caller == 3 and notrun not in (0, 2):
+                        continue        # a thread of a second pool broadcasts: all running / last thread detached
                     if notrun == 6 and (caller == 0 or api != 0 or W not in (2, 3) or fl[0] not in ('0', 'SKIP', 'SYNC+SKIP')):
                         continue        # a pool thread that has just detached itself broadcasts (no self-direct forms: nothing says what a direct call to oneself means then)
-                    if notrun == 7 and (caller == 2 or W not in (2, 3)):
+                    if notrun == 7 and (caller >= 2 or W not in (2, 3)):
                         continue
                     if notrun == 5 and (caller != 1 or W not in (2, 3)):
                         continue        # a pool thread with a really full queue broadcasts (the default schedule decides where it is full)
